@@ -132,6 +132,12 @@ def label_collision_circuits():
         for t in ('GT', 'LEQ', 'LIFF'):
             gates = [[i, 'INPUT', []] for i in ins] + [['g1', t, [ab, c]], ['g2', t, [a, bc]], ['d', 'XOR', ['g1', 'g2']]]
             out.append(realize({'gates': gates, 'inputs': ins, 'outputs': ['d', 'g1'], 'blocks': []}))
+    # constants that carry operands (what exact synthesis emits) next to gates with the same function
+    for kt, expr in (('ALWAYS_FALSE', 'AND'), ('ALWAYS_TRUE', 'OR')):
+        for kops in (['a', 'z'], ['a'], ['x', 'x']):
+            gates = [[i, 'INPUT', []] for i in ('a', 'z', 'x')] + [['k', kt, kops], ['n', 'NOT', ['x']], ['g', expr, ['x', 'n']],
+                                                                  ['h', 'XOR', ['k', 'a']], ['m', 'OR', ['g', 'z']]]
+            out.append(realize({'gates': gates, 'inputs': ['a', 'z', 'x'], 'outputs': ['h', 'm', 'k', 'g'], 'blocks': []}))
     return out
 
 
